@@ -35,6 +35,7 @@ from __future__ import annotations
 import datetime as dt
 import itertools
 import math
+import os
 import struct
 from typing import Any, Callable, Dict, Iterable, List, Optional, Tuple
 
@@ -864,8 +865,78 @@ def large_roundtrip_worker(payload: Tuple[str, int]) -> Dict[str, Any]:
     return rep.part()
 
 
+def prebuilt_worker(payload: Tuple[str, int]) -> Dict[str, Any]:
+    """(c, pre-built files) parquet files written outside the library and registered through append_files with a bare
+    DataFile (no bounds, no NULL counts): several row groups, one of them holding a value so long that the parquet
+    writer records no min/max for it, NULLs in another.  Whatever statistics the library derives or does without,
+    the pruned scan must equal the unpruned one for every filter of the list."""
+    import pyarrow as pa
+    import pyarrow.parquet as pq
+
+    import datashard.filters as F
+    from datashard import DataFile, FileFormat, Schema, create_table
+
+    tier, seed = payload
+    rep = Report(PROP, tier, seed, "exploration")
+    big = "zulu-" + "x" * 6000
+    layouts = {
+        "two_row_groups_one_without_stats": [[(1, "alpha"), (2, "charlie")], [(3, "mike"), (4, big), (5, None)]],
+        "nulls_only_in_second_group": [[(1, "alpha"), (2, "bravo")], [(3, None), (4, None)]],
+        "single_group_with_nulls": [[(1, None), (2, "kilo"), (3, None)]],
+    }
+    filters = [{"c": ("==", "mike")}, {"c": (">=", "mike")}, {"c": (">", "d")}, {"c": ("<", "b")}, {"c": ("in", ["mike", "kilo"])},
+               {"c": ("is_null", True)}, {"c": ("is_not_null", True)}, {"c": ("==", big)}, {"c": ("!=", "alpha")},
+               {"k": (">=", 3)}, {"c": ("between", ("l", "n"))}]
+    for lname, groups in layouts.items():
+        for registrar in ("append_files", "table_append_data"):
+            use_local()
+            root = fresh_dir(f"c13-prebuilt-{lname}-{registrar}")
+            t = create_table(root, Schema(schema_id=1, fields=[
+                {"id": K_ID, "name": "k", "type": "long", "required": True},
+                {"id": C_ID, "name": "c", "type": "string", "required": False}]))
+            t.append_records([{"k": 100, "c": "own"}])
+            rows = [r for g in groups for r in g]
+            tbl = pa.table({"k": pa.array([r[0] for r in rows], pa.int64()), "c": pa.array([r[1] for r in rows], pa.string())},
+                           schema=pa.schema([pa.field("k", pa.int64(), nullable=False), pa.field("c", pa.string())]))
+            os.makedirs(os.path.join(root, "data"), exist_ok=True)
+            path = os.path.join(root, "data", "prebuilt.parquet")
+            pq.write_table(tbl, path, row_group_size=len(groups[0]))
+            df = DataFile(file_path="/data/prebuilt.parquet", file_format=FileFormat.PARQUET, partition_values={},
+                          record_count=len(rows), file_size_in_bytes=os.path.getsize(path))
+            if registrar == "append_files":
+                with t.new_transaction() as tx:
+                    tx.append_files([df])
+            else:
+                t.append_data([df])
+            for fd in filters:
+                rep.add("evaluations")
+                rep.add("prebuilt_file_scans")
+                rep.nontrivial(("prebuilt", lname, registrar, repr(fd)))
+                try:
+                    pruned: Any = _canon_rows(t.scan(filter=fd))
+                except Exception as e:  # noqa
+                    pruned = f"raised {type(e).__name__}"
+                real = F.prune_files_by_bounds
+                F.prune_files_by_bounds = lambda files, *a, **k: list(files)
+                try:
+                    try:
+                        full: Any = _canon_rows(t.scan(filter=fd))
+                    except Exception as e:  # noqa
+                        full = f"raised {type(e).__name__}"
+                finally:
+                    F.prune_files_by_bounds = real
+                if pruned != full:
+                    rep.violation({"part": "e2e", "type": "string", "case": "prebuilt_file_without_statistics",
+                                   "problem": "rows_lost" if not isinstance(pruned, str) else "pruned_scan_raises"},
+                                  {"layout": lname, "registered_through": registrar, "filter": repr(fd)[:120],
+                                   "pruned": repr(pruned)[:160], "unpruned": repr(full)[:160]})
+    return rep.part()
+
+
 def _worker(payload: Tuple) -> Dict[str, Any]:
     kind = payload[0]
+    if kind == "prebuilt":
+        return prebuilt_worker(payload[1:])
     if kind == "rtlarge":
         return large_roundtrip_worker(payload[1:])
     if kind == "dec":
@@ -910,6 +981,7 @@ def run(tier: str, seed: int) -> Report:
         payloads.append(("rt", tname, tier, seed))
     payloads.append(("rtmix", tier, seed))
     payloads.append(("rtlarge", tier, seed))
+    payloads.append(("prebuilt", tier, seed))
     e2e_types = QUICK_E2E_TYPES if tier == "quick" else ALL_TYPES
     per = 2 if tier == "quick" else 3
     for tname in e2e_types:
